@@ -217,6 +217,7 @@ def run(chk):
     qubit_finder(chk)
     decorator_flags(chk)
     tensor_signature(chk)
+    nested_with_flags(chk)
     chk.use_engine(e)
 
 
@@ -310,6 +311,120 @@ def qubit_finder(chk):
         n += 1
     chk.record("contain_qubit_ty:shapes-explored", n >= 40, str(n), kind="reachability")
     e.models.pop(f"{Q}:qubit_ty", None)
+    chk.use_engine(e)
+
+
+REPLAY_NESTED_WITH = r'''
+import tempfile, importlib.util, os, sys, shutil
+import guppylang
+guppylang.enable_experimental_features()
+from guppylang_internals.error import GuppyError
+src = """from guppylang import guppy
+from guppylang.std.quantum import qubit
+control = object(); dagger = object(); power = object()
+@guppy.declare(control=True)
+def pred(q: qubit) -> bool: ...
+@guppy.declare(unitary=True)
+def uni(q: qubit) -> None: ...
+@guppy(dagger=True)
+def in_flagged_function(c: qubit, q: qubit) -> None:
+    with control(c):
+        if pred(q):
+            uni(q)
+@guppy
+def in_enclosing_with(c: qubit, q: qubit) -> None:
+    with dagger:
+        with control(c):
+            if pred(q):
+                uni(q)
+@guppy
+def three_deep(c: qubit, q: qubit) -> None:
+    with dagger:
+        with power(2):
+            with control(c):
+                while pred(q):
+                    uni(q)
+@guppy
+def fine(c: qubit, q: qubit) -> None:
+    with dagger:
+        with control(c):
+            uni(q)
+"""
+d = tempfile.mkdtemp(dir=os.environ.get("TMPDIR", "/var/tmp")); fn = os.path.join(d, "replay_c24n.py"); open(fn, "w").write(src)
+spec = importlib.util.spec_from_file_location("replay_c24n", fn); m = importlib.util.module_from_spec(spec); sys.modules["replay_c24n"] = m
+spec.loader.exec_module(m)
+res = {}
+for name in ("in_flagged_function", "in_enclosing_with", "three_deep", "fine"):
+    try:
+        getattr(m, name).check(); res[name] = "accepted"
+    except GuppyError as ex:
+        res[name] = "rejected:" + type(ex.error).__name__
+shutil.rmtree(d, ignore_errors=True)
+bad = [k for k in ("in_flagged_function", "in_enclosing_with", "three_deep") if res[k] == "accepted"] + ([] if res["fine"] == "accepted" else ["fine"])
+print(json.dumps({"violates": bool(bad), "observed": res, "required": "`pred` lacks dagger: its use as a branch/loop condition inside a control block is rejected when the enclosing context requires dagger"}))
+'''
+
+
+def nested_with_flags(chk):
+    """CFGBuilder.visit_With (cfg/builder.py): the CFG of a with block's body is checked (check_cfg_unitary,
+    above) against cfg.unitary_flags — so that field has to hold every flag the context requires: the flags
+    of the enclosing function / enclosing with blocks AND those of the block's own modifiers, at every depth."""
+    from . import C03 as C3
+    from .common import ast_from_source
+    BM = "guppylang_internals.cfg.builder"
+    e = C3.cfg_engine(chk)
+    e.func_info(BM, "CFGBuilder.visit_With")
+    e.models["guppylang_internals.experimental:check_modifiers_enabled"] = lambda it, a, k: None
+    FL = {"dagger": 2, "control(c)": 1, "power(2)": 4}
+    progs = []
+    for a in FL:
+        progs.append(([a], f"with {a}:\n    g(q)\n"))
+        for b in FL:
+            progs.append(([a, b], f"with {a}:\n    with {b}:\n        g(q)\n"))
+            progs.append(([a + "+" + b], f"with {a}, {b}:\n    g(q)\n"))
+    progs.append((["dagger", "power(2)", "control(c)"], "with dagger:\n    with power(2):\n        with control(c):\n            g(q)\n"))
+    progs.append((["control(c)", "dagger", "dagger"], "with control(c):\n    f(q)\n    with dagger:\n        with dagger:\n            g(q)\n"))
+    n = 0
+    for outer in (0, 1, 2, 4, 7):
+        for mods, src in progs:
+            def t(it, outer=outer, src=src):
+                m = e.module(BM)
+                it.ctx.mod_globals(m)["tmp_vars"] = [f"%tmp{k}" for k in range(50)]
+                UF = it.lookup_global(e.module(TYM), "UnitaryFlags")
+                CB = it.lookup_global(m, "CFGBuilder")
+                fd = ast_from_source(it, "def fn():\n" + "".join("    " + l + "\n" for l in src.splitlines())).fields["body"][0]
+                cfg = it.call_method(it.call(CB, [], {}), "build", [fd.fields["body"], True, SObj(ClassVal("Globals", builtin=True), {}), FlagVal(UF, outer)])
+                out = []
+
+                def walk(c):
+                    for bb in c.fields["bbs"]:
+                        for st in bb.fields["statements"]:
+                            if isinstance(st, SObj) and st.cls.name == "ModifiedBlock":
+                                inner = st.fields["cfg"]
+                                out.append(inner.fields["unitary_flags"].value)
+                                walk(inner)
+                walk(cfg)
+                return out
+
+            def post(p, outer=outer, mods=mods):
+                if p.kind != "return":
+                    return z3.BoolVal(False)
+                want, acc = [], outer
+                for md in mods:
+                    own = 0
+                    parts = md.split("+")
+                    if sum(1 for x in parts if x == "dagger") % 2:
+                        own |= 2
+                    for x in parts:
+                        if x != "dagger":
+                            own |= FL[x]
+                    acc |= own
+                    want.append(acc)
+                return z3.BoolVal(p.value == want)
+            chk.prove_paths(f"visit_With[context={outer};{' > '.join(mods)}]:body-flags==enclosing-flags|own-modifier-flags(at-every-depth)", e.explore(t), post, func=f"{BM}:CFGBuilder.visit_With",
+                            replay=lambda m_: {"script": REPLAY_NESTED_WITH, "input": {}})
+            n += 1
+    chk.record("visit_With:nestings-explored", n >= 80, str(n), kind="reachability")
     chk.use_engine(e)
 
 
